@@ -28,7 +28,7 @@ EXTRA = {"sphere": [[0.5, 0.0, 0.0], [0.0, 0.0, 0.0]],
 
 def jobs(tier, seed):
     J = []
-    shapes = [s for s in SH.CORPUS if s["type"] in CC.PRED and not str(s.get("mesh", "")).endswith("_mixed")]
+    shapes = [s for s in SH.CORPUS if s["type"] in CC.PRED and not str(s.get("mesh", "")).endswith(("_mixed", "_raw"))]
     if tier != "quick":
         shapes += [s for s in SH.CORPUS_MORE if s["type"] in CC.PRED]
     for sh in shapes:
